@@ -27,3 +27,14 @@ void unit_moves() {
     amgcl::backend::crs<double> a; amgcl::backend::crs<double> b(std::move(a)); a = std::move(b);
     amgcl::backend::numa_vector<double> v(4), w(4); v.swap(w);
 }
+
+namespace verif_control {
+// rmerge-row-consumed must report this walk: the pair loop stops with up to two entries left, the tail takes one
+inline long rmerge_leaves_one(const long *acol, const long *acol_end, const long *bptr) {
+    long w = 0;
+    while (acol_end - acol > 2) { long a1 = *acol++; long a2 = *acol++; w += bptr[a1 + 1] - bptr[a1] + bptr[a2 + 1] - bptr[a2]; }
+    if (acol < acol_end) { long a = *acol++; w += bptr[a + 1] - bptr[a]; }
+    return w;
+}
+}
+long unit_control_rmerge(const long *c, const long *e, const long *p) { return verif_control::rmerge_leaves_one(c, e, p); }
